@@ -41,6 +41,9 @@ def nontrivial(case):
     return True
 
 
+CROSS = ["C01", "C02", "C03", "C06", "C07", "C08", "C12", "C14", "C15", "C17", "C20"]
+
+
 def gen_cases(tier, seed):
     cs = itertools.count(1)
     reps = 2 if tier == "quick" else 12
@@ -48,6 +51,16 @@ def gen_cases(tier, seed):
         for N in e["orders"]:
             for r in range(reps):
                 yield {"w": "catalogue", "entry": name, "N": N, "cseed": int(seed) * 15485863 + next(cs)}
+    # MutSan armed under the other properties' traffic: their quick workloads are replayed with only the mutation / alias oracle
+    # listening (every 12th case in quick, every 2nd in thorough)
+    import importlib
+
+    step = 12 if tier == "quick" else 2
+    for p in CROSS:
+        mod = importlib.import_module(f"pvm.props.{p.lower()}")
+        for i, c in enumerate(mod.gen_cases("quick", seed)):
+            if i % step == 0:
+                yield {"w": "cross", "prop": p, "case": c}
 
 
 # ------------------------------------------------------------------ operand builders ---------
@@ -1121,7 +1134,27 @@ def _(e):
 
 
 # ------------------------------------------------------------------ execution --------------------
+def _cross(case, ctx):
+    import importlib
+
+    from ..core import CaseAbort
+    from ..denote import DenoteError
+
+    mod = importlib.import_module(f"pvm.props.{case['prop'].lower()}")
+    ctx.accept = lambda s: s in ("MUTATED", "ALIAS")
+    np.random.seed(int(case["case"].get("gseed") or 0))
+    try:
+        mod.run_case(case["case"], ctx)
+    except (CaseAbort, DenoteError):
+        pass
+    finally:
+        ctx.accept = None
+    ctx.feat(entry="cross:" + case["prop"])
+
+
 def run_case(case, ctx):
+    if case["w"] == "cross":
+        return _cross(case, ctx)
     e = Env(np.random.default_rng(case["cseed"]), case["N"])
     ent = CATALOGUE[case["entry"]]
     made = ent["make"](e)
